@@ -93,6 +93,12 @@ CLAIMS["C01"] = dict(
   text="Decides necessary conditions of 'never crashes, spins or deadlocks' for every function reachable from Readline, the commands and the exported API: each loop has a termination variant or a reviewed ranking argument, each recursion a checked bound, no explicit panic, no unguarded nil call / nil dereference after a nil comparison / variable division / input-buffer index, read errors leave the wait loop and reach the caller, sends cannot block in the sequential flow (the cursor-report hand-off is a known finding). Full panic-freedom of all index/slice sites is not decided.",
   ref="§5 C01")
 
+CLAIMS["C05"] = dict(
+  level="other",
+  technique="static analysis: only-reader inventory, path-complete byte-flow (must-pass-through + value slices) from each terminal read to the key buffer / hand-off / caller, dominating emptiness guards before a terminal read, ordering in the push-back functions; repeated for other unix GOOS in the thorough tier",
+  text="Decides necessary conditions of chunking independence: no path drops or bypasses bytes that were read (readers and all consumers keep everything), ReadKey drains pending keys before reading, partially matched keys are pushed back in front with mustWait computed first, buffered keys are used without reading. Schedule independence as such is not decided.",
+  ref="§5 C05")
+
 NA_REASONS = {
  "C15": "Cycle coverage is arithmetic over a grid whose shape is computed at run time from candidate widths and terminal width; no pairing/ownership/ordering/table clause is a necessary condition, and a bounds proof of rows[y][x] needs the same run-time shape invariants. A check would be a brittle proxy (DESIGN.md §5 C15, §8).",
 }
